@@ -1,5 +1,6 @@
 import KafkaModel.Model.Consumer
 import KafkaModel.Props.C02
+import KafkaModel.Spec.Broker
 /-!
   C01 — Consumer delivers every log message exactly once, in order, per partition.
   Theorems about `iterate` (mirror of `MessageSetsIter`), `processPartition` / `processResponses`
@@ -624,5 +625,62 @@ theorem C01_plain_reply_conforms (ms : List Msg) (k t : Nat) (o : Int) (hk : ∀
     rfl
   rw [← h3]
   exact h2
+
+/-- a partition log of uncompressed entries, one message each -/
+def plainEntries (ms : List Msg) : List LogEntry := ms.map fun m => ⟨m.offset, m.offset, encMsg m⟩
+
+/-- **the specification broker's answer for an uncompressed log** is the encoded log from some entry on — having skipped only
+    messages below the asked offset — cut at `max_bytes`: the premise of `C01_plain_reply_conforms` -/
+theorem C01_spec_fetch_plain (ps : PartState) (ms : List Msg) (h : ps.entries = plainEntries ms) (o mb : Int) :
+    ∃ k, (∀ m ∈ ms.take k, m.offset < o) ∧ fetchBytes ps o mb = (encMsgs (ms.drop k)).take mb.toNat := by
+  unfold fetchBytes
+  rw [h]
+  -- dropWhile over the mapped list is a drop of the original
+  have key : ∀ (l : List Msg), ∃ k, (∀ m ∈ l.take k, m.offset < o) ∧
+      (plainEntries l).dropWhile (fun e => decide (e.last < o)) = plainEntries (l.drop k) := by
+    intro l
+    induction l with
+    | nil => exact ⟨0, by simp, by simp [plainEntries]⟩
+    | cons m r ih =>
+      by_cases hm : m.offset < o
+      · obtain ⟨k, hk1, hk2⟩ := ih
+        refine ⟨k + 1, ?_, ?_⟩
+        · intro x hx
+          simp only [List.take_succ_cons, List.mem_cons] at hx
+          rcases hx with rfl | hx
+          · exact hm
+          · exact hk1 x hx
+        · simp only [plainEntries, List.map_cons, List.dropWhile_cons, hm, decide_true, if_true, List.drop_succ_cons]
+          exact hk2
+      · refine ⟨0, by simp, ?_⟩
+        simp only [plainEntries, List.map_cons, List.dropWhile_cons, hm, decide_false, Bool.false_eq_true, if_false, List.drop_zero]
+  obtain ⟨k, hk1, hk2⟩ := key ms
+  refine ⟨k, hk1, ?_⟩
+  simp only []
+  rw [hk2]
+  congr 1
+  unfold plainEntries encMsgs
+  generalize ms.drop k = l
+  induction l with
+  | nil => rfl
+  | cons m r ih => simp only [List.map_cons, List.flatMap_cons, ih]
+
+/-- **end to end for an uncompressed partition log**: whatever the asked offset `o` and fetch size, what the model's decoder
+    exposes from the specification broker's answer is a gap-free prefix of the messages available from `o` — so every poll
+    of such a history is an `Ev.poll` permitted by `Ev.ok`, and `C01_history` applies to it -/
+theorem C01_end_to_end_plain (cx : Codecs) (debug validate : Bool) (depth : Nat) (ps : PartState) (ms : List Msg)
+    (h : ps.entries = plainEntries ms) (hok : ∀ m ∈ ms, msgOK m ∧ isPlain m) (o mb : Int) :
+    ∃ out, fromSlice cx debug depth (ms.length + 1) (fetchBytes ps o mb) o validate [] = .ok out ∧
+      out <+: avail (ms.map asMessage) o := by
+  obtain ⟨k, hk1, hk2⟩ := C01_spec_fetch_plain ps ms h o mb
+  rw [hk2]
+  have hlen : (cutMsgs (ms.drop k) mb.toNat).length ≤ ms.length + 1 := by
+    have := cutMsgs_length (ms.drop k) mb.toNat
+    simp at this
+    omega
+  have := C02_plain cx debug depth o validate (ms.drop k) mb.toNat (ms.length + 1) []
+    (fun m hm => hok m (List.mem_of_mem_drop hm)) hlen
+  rw [this]
+  exact ⟨want (cutMsgs (ms.drop k) mb.toNat) o, by simp, C01_plain_reply_conforms ms k mb.toNat o hk1⟩
 
 end Kafka.Props.C01
